@@ -81,7 +81,7 @@ func init() {
 		Init: func(c *Chain) {
 			// a quarter of the validators will stop attesting after the exits are queued
 			n := len(c.Vals)
-			for i := 0; i < n/4; i++ {
+			for i := 0; i < n/4+3; i++ {
 				c.Vars[fmt.Sprintf("lazy%d", c.Rng.Intn(n))] = 1
 			}
 			c.Vars["exit_epoch"] = int(c.Spec.SHARD_COMMITTEE_PERIOD) + c.Rng.Intn(2)
@@ -114,17 +114,18 @@ func init() {
 			expect(c.Stats.Get("validators_exited_voluntarily") >= 3, &out, "only %d voluntary exits", c.Stats.Get("validators_exited_voluntarily"))
 			expect(c.Stats.Get("max_exit_queue_span") >= 2, &out, "exit queue never spanned epochs (span %d)", c.Stats.Get("max_exit_queue_span"))
 			expect(c.Stats.Get("validators_ejected") >= 1, &out, "nobody was ejected")
+			expect(c.Stats.Get("epochs_ejections_exceed_churn") >= 1, &out, "never more ejections in one epoch than the churn limit (max %d)", c.Stats.Get("max_ejections_in_one_epoch"))
 			return
 		},
 	})
 
 	register(&Scenario{
 		Name:  "mass_slashing",
-		Knobs: SpecKnobs{AllForksInside: true},
+		Knobs: SpecKnobs{AllForksInside: true, SmallChurn: true, ShortSlashings: true},
 		Gen:   GenesisKnobs{MinVals: 24, MaxVals: 96, Eth1Share: 30, AboveShare: 10, BelowShare: 5},
 		Rates: OpRates{Exit: 2, BLSChange: 5},
 		Init: func(c *Chain) {
-			c.Vars["slash_epoch"] = 1 + c.Rng.Intn(2)
+			c.Vars["slash_epoch"] = 1
 			c.Vars["slash_target"] = len(c.Vals)/3 + c.Rng.Intn(len(c.Vals)/8+1)
 		},
 		Mode: func(c *Chain, e common.Epoch) string { return "full" },
@@ -133,14 +134,26 @@ func init() {
 				return
 			}
 			n := len(p.Flats)
-			// big attester slashings
+			churn := int(c.Spec.GetChurnLimit(uint64(len(p.Epc.CurrentEpoch.ActiveIndices))))
+			// the first slashing block hits 2*churn+1 (or more) validators with ONE attester slashing: the exit queue
+			// advances twice inside the block
+			size := 2 + c.Rng.Intn(8)
+			if c.Vars["big_done"] == 0 {
+				size = 2*churn + 1 + c.Rng.Intn(3)
+			}
 			for k := 0; k < int(c.Spec.MAX_ATTESTER_SLASHINGS); k++ {
 				var vs []common.ValidatorIndex
-				size := 2 + c.Rng.Intn(8)
-				for i := 0; i < size; i++ {
-					vs = append(vs, common.ValidatorIndex(c.Rng.Intn(n)))
+				for t := 0; t < 8*size && len(vs) < size; t++ {
+					v := common.ValidatorIndex(c.Rng.Intn(n))
+					if p.slashable(v) && !p.used[v] && v != p.B.ProposerIndex {
+						vs = dedup(append(vs, v))
+					}
 				}
-				p.AddAttesterSlashing(dedup(vs), c.Rng.Chance(50))
+				before := p.Ops["aslash_validators"]
+				if p.AddAttesterSlashing(vs, c.Rng.Chance(50)) && p.Ops["aslash_validators"]-before >= 2*churn+1 {
+					c.Vars["big_done"] = 1
+				}
+				size = 2 + c.Rng.Intn(8)
 			}
 			for k := 0; k < 2; k++ {
 				p.AddProposerSlashing(common.ValidatorIndex(c.Rng.Intn(n)))
@@ -150,6 +163,8 @@ func init() {
 			commonChecks(c, &out)
 			expect(c.Stats.Get("validators_slashed") >= c.initialVals/5, &out, "only %d of %d validators slashed", c.Stats.Get("validators_slashed"), c.initialVals)
 			expect(c.Stats.Get("epochs_with_slashing_penalties") >= 1, &out, "no epoch applied correlated slashing penalties")
+			expect(c.Stats.Get("blocks_exit_queue_advanced_twice") >= 1, &out, "no block initiated 2*churn+1 exits at once (max %d)", c.Stats.Get("max_exits_initiated_in_one_block"))
+			expect(c.Stats.Get("slashed_reaching_withdrawable_epoch") >= 1, &out, "no slashed validator reached its withdrawable epoch")
 			return
 		},
 	})
@@ -325,6 +340,26 @@ func init() {
 		Check: func(c *Chain) (out []string) {
 			commonChecks(c, &out)
 			expect(c.Stats.Get("blocks_with_all_ops") >= 1, &out, "no block carried every operation kind of its fork")
+			return
+		},
+	})
+
+	register(&Scenario{
+		Name:    "eth1_votes",
+		Knobs:   SpecKnobs{AllForksInside: true},
+		Rates:   OpRates{Exit: 3, PSlash: 1, ASlash: 1, BLSChange: 10, Deposit: 12},
+		SkipPct: 6,
+		Init:    func(c *Chain) { c.Eth1HalfPattern = true },
+		Mode:    func(c *Chain, e common.Epoch) string { return pick(c.Rng, "full", "full", "mostly") },
+		Check: func(c *Chain) (out []string) {
+			commonChecks(c, &out)
+			half, stay := 0, 0
+			for _, f := range ForkNames {
+				half += c.Stats.Get(f + ".eth1_vote_reaches_exactly_half")
+				stay += c.Stats.Get(f + ".eth1_vote_while_other_at_exactly_half")
+			}
+			expect(half >= 1, &out, "no eth1 vote count reached exactly half of the period")
+			expect(stay >= 1, &out, "no block voted while another value sat at exactly half")
 			return
 		},
 	})
